@@ -65,6 +65,7 @@ type Op struct {
 	Ents []*GPath   `json:"ents,omitempty"`
 	Ups  []*GPath   `json:"ups,omitempty"`
 	Dels []*GPath   `json:"dels,omitempty"`
+	Atom bool       `json:"atomic,omitempty"` // notif: Notification.Atomic
 	Once bool       `json:"once,omitempty"`
 	Tq   []string   `json:"tq,omitempty"`
 	Hs   []int      `json:"hs,omitempty"`
@@ -303,7 +304,7 @@ func (w *world) apply(o Op) (res Obs) {
 		}
 		return Obs{Kind: "offers", Offers: w.drain(tok)}
 	case "notif":
-		n := &pb.Notification{Timestamp: 1, Prefix: o.Pre.pb()}
+		n := &pb.Notification{Timestamp: 1, Prefix: o.Pre.pb(), Atomic: o.Atom}
 		for _, u := range o.Ups {
 			n.Update = append(n.Update, &pb.Update{Path: u.pb(), Val: &pb.TypedValue{Value: &pb.TypedValue_IntVal{IntVal: 1}}})
 		}
@@ -369,7 +370,17 @@ func (w *world) hits(n *pb.Notification) []int {
 	}
 	t := &ctree.Tree{}
 	pre := path.ToStrings(n.Prefix, true)
+	if n.Atomic {
+		// the cache stores an atomic notification as one leaf at its prefix
+		if len(n.Update) > 0 && len(pre) > 0 {
+			_ = t.Add(pre[1:], 1)
+		}
+		pre = nil
+	}
 	for _, u := range n.Update {
+		if n.Atomic {
+			break
+		}
 		sp := append(cp(pre), path.ToStrings(u.Path, false)...)
 		if len(sp) == 0 {
 			continue
@@ -491,7 +502,7 @@ func opTerm(n *vh.Names, o Op) string {
 		}
 		return "OOnce " + vh.List(el)
 	case "notif":
-		return fmt.Sprintf("ONotif %s %s %s", optGp(n, o.Pre), optGps(n, o.Ups), optGps(n, o.Dels))
+		return fmt.Sprintf("ONotif %s %s %s %s", vh.Bool(o.Atom), optGp(n, o.Pre), optGps(n, o.Ups), optGps(n, o.Dels))
 	case "nodes":
 		return "ONodes"
 	case "conc":
@@ -712,8 +723,11 @@ func randNotif(r *vh.Rand, known [][]string) Op {
 			pre.Origin = "oc"
 		}
 	}
-	o := Op{K: "notif", Pre: pre}
+	o := Op{K: "notif", Pre: pre, Atom: r.Chance(1, 5)}
 	k := 1 + r.Pick(6, 3, 2)
+	if r.Chance(1, 30) {
+		k = 0 // prefix-only notification
+	}
 	for i := 0; i < k; i++ {
 		var ns []string
 		if len(known) > 0 && r.Chance(2, 3) {
@@ -895,6 +909,156 @@ func randConcSeq(r *vh.Rand) []Op {
 	return ops
 }
 
+// splitSub renders the full index path (without target) of a subscription as
+// prefix elements + path elements, split at a random point.
+func splitSub(r *vh.Rand, c int, target, origin string, full []string) Op {
+	j := r.Intn(len(full) + 1)
+	pre := randGPath(r, full[:j])
+	pre.Target = target
+	var e *GPath
+	if j == len(full) && r.Chance(1, 3) {
+		e = nil // everything in the prefix, no path at all
+	} else {
+		e = randGPath(r, full[j:])
+	}
+	if origin != "" {
+		if j > 0 || e == nil || r.Chance(1, 2) {
+			pre.Origin = origin
+		} else {
+			e.Origin = origin
+		}
+	}
+	return Op{K: "sub", C: c, Pre: pre, Ents: []*GPath{e}}
+}
+
+// "under what path is a notification matched": one notification prefix P and
+// update/delete paths u_i; subscribers above P, at P, below P on paths that
+// agree with some u_i (prefix of it, equal, extension, globbed) and on paths
+// that disagree with every u_i at the first or a later element; the
+// notification sent atomic and not, as updates and as deletes, prefix-only,
+// with an empty update path, with target/origin noise.
+func randUnderSeq(r *vh.Rand) []Op {
+	target := []string{"dev1", "dev2"}[r.Pick(4, 1)]
+	origin := ""
+	if r.Chance(1, 6) {
+		origin = "oc"
+	}
+	pool := []string{"a", "b", "c", "g"}
+	P := make([]string, r.Pick(2, 3, 3))
+	for i := range P {
+		P[i] = pool[r.Intn(len(pool))]
+	}
+	nu := 1 + r.Intn(3)
+	us := make([][]string, nu)
+	for i := range us {
+		us[i] = make([]string, r.Pick(1, 4, 3))
+		for k := range us[i] {
+			us[i][k] = pool[r.Intn(3)]
+		}
+	}
+	disagree := func(s string) string { // a name different from s and not a glob
+		for _, x := range []string{"x", "y"} {
+			if x != s {
+				return x
+			}
+		}
+		return "z"
+	}
+	var ops []Op
+	nsub := 3 + r.Intn(5)
+	for c := 0; c < nsub && c < maxClients; c++ {
+		var full []string
+		u := us[r.Intn(nu)]
+		switch r.Pick(2, 2, 3, 3, 5, 2) {
+		case 0: // above the prefix
+			full = cp(P[:r.Intn(len(P)+1)])
+		case 1: // at the prefix
+			full = cp(P)
+		case 2: // below, a prefix of / equal to an update path
+			full = append(cp(P), u[:r.Intn(len(u)+1)]...)
+		case 3: // below, an extension of an update path
+			full = append(append(cp(P), u...), pool[r.Intn(3)])
+		case 4: // below, disagreeing with EVERY update path
+			k := 0
+			if len(u) > 1 && r.Chance(1, 2) {
+				k = r.Intn(len(u))
+			}
+			full = append(cp(P), u[:k]...)
+			bad := "x"
+			for _, v := range us { // differ from every update at position k (or be past its end with a mismatch before)
+				if k < len(v) && v[k] == bad {
+					bad = disagree(v[k])
+				}
+			}
+			full = append(full, bad)
+			if r.Chance(1, 3) {
+				full = append(full, pool[r.Intn(3)])
+			}
+		case 5: // disagreeing inside the prefix
+			if len(P) > 0 {
+				full = cp(P)
+				full[r.Intn(len(P))] = "x"
+				full = append(full, u...)
+			} else {
+				full = []string{"x"}
+			}
+		}
+		if len(full) > 0 && r.Chance(1, 5) {
+			full[r.Intn(len(full))] = "*"
+		}
+		st := target
+		if r.Chance(1, 6) {
+			st = "*"
+		}
+		ops = append(ops, splitSub(r, c, st, origin, full))
+	}
+	mk := func(atomic, asDelete bool, paths [][]string) Op {
+		pre := randGPath(r, P)
+		pre.Target = target
+		pre.Origin = origin
+		o := Op{K: "notif", Pre: pre, Atom: atomic}
+		for _, u := range paths {
+			var g *GPath
+			if len(u) > 0 || !r.Chance(1, 3) {
+				g = randGPath(r, u)
+				if r.Chance(1, 8) {
+					g.Target = "dev9"
+				}
+				if origin == "" && r.Chance(1, 10) {
+					g.Origin = "oc"
+				}
+			}
+			if asDelete {
+				o.Dels = append(o.Dels, g)
+			} else {
+				o.Ups = append(o.Ups, g)
+			}
+		}
+		return o
+	}
+	ops = append(ops, mk(false, false, us), mk(true, false, us), mk(false, true, us), mk(true, true, us))
+	ops = append(ops, mk(r.Chance(1, 2), false, nil))                  // prefix-only
+	ops = append(ops, mk(r.Chance(1, 2), false, [][]string{{}}))       // one update with an empty path
+	ops = append(ops, mk(true, false, us[:1]), mk(false, false, us[:1])) // single update
+	mixed := mk(r.Chance(1, 2), false, us[:1])
+	mixed.Dels = mk(false, true, us[1:]).Dels
+	ops = append(ops, mixed)
+	// the other target, and the same elements carried by a notification whose prefix is shorter
+	other := mk(true, false, us)
+	other.Pre.Target = "dev3"
+	ops = append(ops, other)
+	if len(P) > 0 {
+		short := Op{K: "notif", Atom: r.Chance(1, 2), Pre: &GPath{Target: target, Origin: origin}}
+		for _, u := range us {
+			short.Ups = append(short.Ups, randGPath(r, append(cp(P), u...)))
+		}
+		short.Pre.Elems = nil
+		ops = append(ops, short)
+	}
+	ops = append(ops, Op{K: "rem", H: r.Intn(nsub)}, mk(true, false, us), mk(false, true, us), Op{K: "nodes"})
+	return ops
+}
+
 func nontrivial(c Case) bool {
 	reg, hit := false, false
 	for i, o := range c.Ops {
@@ -1017,7 +1181,7 @@ func main() {
 	flag.Set("stderrthreshold", "FATAL")
 	o := vh.ParseFlags()
 	coalesce.VerifHook = queueHook
-	meta := vh.NewMeta("corpus cases; pairs-1: for every query path q of length 0..4 over {a,b,*} one case registering q and matching EVERY update path of length 0..4 over {a,b,*} against it (Update and UpdateOnce), then removal and the same updates again; pairs-2: two queries (same or different client) of length 0..3 against every update path of length 0..3 (quick: a seeded slice; thorough: all); sub: seeded subscribe-level sequences (1..3 subscription lists with 1..4 entries incl. entries without path, one list in six holding a name with a separator-like byte (/ , . space |) together with the same text split into separate elements, in either order, origins, keyed elements, deprecated element paths; notifications with 1..3 updates/deletes through Server.Update before and after removal); conc: seeded concurrent cases: 2..7 clients on the same or overlapping paths (AddQuery, sometimes a subscription list), then Update/UpdateOnce during which a trigger client's callback -- running inside the matcher's call -- starts a goroutine calling the removal closures of a random subset (also twice), observing whether they return before the callback does (goroutine dump shows the remover parked on the lock, else bounded wait) and which of the clients being removed are first called after the removals returned, then updates that must not reach the removed clients; seq: seeded sequences of 4..30 operations mixing AddQuery (clients 0..2) / addSubscription (clients 3..7, one list each) / removal (repeated) / Update / UpdateOnce / Server.Update / trie size. distinct = distinct operation sequence; non-trivial = at least one registration and at least one update that was offered to some client")
+	meta := vh.NewMeta("corpus cases; pairs-1: for every query path q of length 0..4 over {a,b,*} one case registering q and matching EVERY update path of length 0..4 over {a,b,*} against it (Update and UpdateOnce), then removal and the same updates again; pairs-2: two queries (same or different client) of length 0..3 against every update path of length 0..3 (quick: a seeded slice; thorough: all); sub: seeded subscribe-level sequences (1..3 subscription lists with 1..4 entries incl. entries without path, one list in six holding a name with a separator-like byte (/ , . space |) together with the same text split into separate elements, in either order, origins, keyed elements, deprecated element paths; notifications with 1..3 updates/deletes through Server.Update before and after removal); under: seeded cases about the path a notification is matched under: one notification prefix (0..2 elements) and 1..3 update paths, 3..7 subscribers above / at / below the prefix on paths agreeing with an update path (prefix, equal, extension, globbed) or disagreeing with every update path (at the first or a later element, or inside the prefix), subscription split between prefix and path at a random point (also path-less), then the notification as updates / deletes / mixed, atomic and not, prefix-only, with an empty update path, single update, other target, shorter prefix, target/origin noise, and again after one removal; conc: seeded concurrent cases: 2..7 clients on the same or overlapping paths (AddQuery, sometimes a subscription list), then Update/UpdateOnce during which a trigger client's callback -- running inside the matcher's call -- starts a goroutine calling the removal closures of a random subset (also twice), observing whether they return before the callback does (goroutine dump shows the remover parked on the lock, else bounded wait) and which of the clients being removed are first called after the removals returned, then updates that must not reach the removed clients; seq: seeded sequences of 4..30 operations mixing AddQuery (clients 0..2) / addSubscription (clients 3..7, one list each) / removal (repeated) / Update / UpdateOnce / Server.Update / trie size. distinct = distinct operation sequence; non-trivial = at least one registration and at least one update that was offered to some client")
 	meta.Samples = []interface{}{} // never null in meta.json
 	e := &emitter{dir: o.Out, cf: vh.NewCaseFile(), meta: meta, limit: 1500}
 
@@ -1110,6 +1274,14 @@ func main() {
 	rs := r.Fork()
 	for i := 0; i < nsub; i++ {
 		e.add("sub", randSubSeq(rs.Fork()))
+	}
+	nunder := 500
+	if o.Thorough() {
+		nunder = 10000
+	}
+	ru := r.Fork()
+	for i := 0; i < nunder; i++ {
+		e.add("under", randUnderSeq(ru.Fork()))
 	}
 	nconc := 400
 	if o.Thorough() {
